@@ -305,6 +305,9 @@ func (f *File) readSection(off int, ctx string) *section {
 	if f.hasAt(off, "xref") {
 		s = f.readTable(off)
 	} else if nr, gen, _, ok := f.objHeader(off); ok {
+		if off > 0 && isDigit(f.Data[off-1]) {
+			f.problemf("%s offset %d points into the middle of an object number: %s", ctx, off, f.show(off-1))
+		}
 		s = f.readXRefStream(off, nr, gen)
 	} else {
 		f.problemf("%s offset %d: expected keyword xref or the \"n g obj\" header of a cross-reference stream exactly there, found %s", ctx, off, f.show(off))
@@ -549,23 +552,28 @@ func (f *File) readXRefStream(off, nr, gen int) *section {
 
 // checkSize: 7.5.5 Table 15 /Size = highest object number + 1. The highest object number is taken
 // from the cross-reference entries (in use or free) of the merged state. A cross-reference stream
-// that has no entry for itself (recorded as a Note) still occupies its object number, so it counts too.
+// without an entry for itself still occupies an object number; whether that number has to be below
+// /Size is not settled by 7.5.8, so for such a file both readings are accepted and a Note is recorded.
 func (f *File) checkSize() {
 	size, ok := asInt(f.Trailer["Size"])
 	if !ok {
 		return // reported by readSection
 	}
-	hi, extra := -1, ""
+	hi, hiAll := -1, -1
 	for nr := range f.ent {
 		hi = max(hi, nr)
 	}
 	for _, nr := range f.xstms {
-		if nr > hi {
-			hi, extra = nr, fmt.Sprintf(", which is cross-reference stream %d that has no entry for itself", nr)
+		hiAll = max(hiAll, nr)
+	}
+	if hiAll > hi {
+		f.notef("/Size is %d, the highest object number with a cross-reference entry is %d, cross-reference stream %d has no entry for itself", size, hi, hiAll)
+		if size == hiAll+1 {
+			return
 		}
 	}
 	if size != hi+1 {
-		f.problemf("trailer /Size is %d but the highest object number with a cross-reference entry is %d%s (expected /Size %d)", size, hi, extra, hi+1)
+		f.problemf("trailer /Size is %d but the highest object number with a cross-reference entry is %d (expected /Size %d)", size, hi, hi+1)
 	}
 }
 
@@ -641,7 +649,7 @@ func (f *File) get(nr int) *Object {
 		return o
 	}
 	e, ok := f.ent[nr]
-	if !ok || e.typ == 0 || f.busy[nr] {
+	if !ok || e.typ == 0 || f.busy[nr] || len(f.busy) > 32 { // no cycles, no deep /Length chains
 		return nil
 	}
 	f.busy[nr] = true
